@@ -1014,6 +1014,108 @@ class Gen:
             self.add({'kind': 'enum', 'name': self.name('E'), 'bits': n, 'exh': 'true' if c == (1 << n) else 'false', 'variants': vs},
                      'F9', 'accept', ['source-constant-variants', 'c=%d' % c])
 
+    def fam_random(self, count):
+        """unstructured mixtures: every feature sampled independently (base, element kind, layout, placement, access, options,
+        documentation), so that combinations no systematic family lists still occur"""
+        rng = random.Random('random-mixtures|%s' % self.rng_order.random())
+        F = self.field
+        made = 0
+        attempts = 0
+        while made < count and attempts < count * 20:
+            attempts += 1
+            W = rng.choice([8, 16, 32, 64, 128, 128, rng.randint(1, 127), rng.randint(65, 127), rng.randint(9, 63)])
+            fields = []
+            all_plain_readable = True
+            for k in range(rng.randint(1, 6)):
+                n = rng.choice([1, 1, 2, 3, 4, 5, 8, 8, 16, 16, 32, 64, rng.randint(1, 128)])
+                if n > W:
+                    continue
+                kind = rng.choice(['u', 'u', 'i', 'bool', 'enum', 'enum', 'nested'])
+                if kind == 'bool':
+                    n, ty = 1, {'k': 'bool'}
+                elif kind == 'i':
+                    if n not in NATIVE:
+                        continue
+                    ty = {'k': 'i', 'n': n}
+                elif kind == 'enum':
+                    if n > 64:
+                        continue
+                    ty = self.custom_enum(n)
+                elif kind == 'nested':
+                    ty = self.custom_nested(n)
+                else:
+                    ty = {'k': 'u', 'n': n}
+                layout = rng.choice(['single', 'single', 'array', 'strided', 'list', 'listarray'])
+                if ty['k'] == 'bool' and layout in ('list', 'listarray'):
+                    layout = 'array'
+                count_, stride, entries, lst = None, None, None, None
+                if layout == 'single':
+                    lo = rng.choice([0, W - n, rng.randint(0, W - n), max(0, min(W - n, 64 - n // 2)), max(0, min(W - n, 63))])
+                    entries = [('r', lo, lo + n - 1)] if (n > 1 or (ty['k'] != 'bool' and rng.random() < 0.5)) else [('s', lo)]
+                elif layout in ('array', 'strided'):
+                    stride_v = n if layout == 'array' else n + rng.choice([0, 1, 2, 3, 8])
+                    maxc = (W - n) // stride_v + 1 if stride_v else 1
+                    if maxc < 2:
+                        continue
+                    count_ = rng.choice([2, 2, min(3, maxc), maxc, min(maxc, 17), min(maxc, 33)])
+                    span = (count_ - 1) * stride_v + n
+                    lo = rng.choice([0, W - span, rng.randint(0, W - span)])
+                    entries = [('r', lo, lo + n - 1)] if n > 1 else [('s', lo)]
+                    stride = None if (layout == 'array' and rng.random() < 0.6) else stride_v
+                else:
+                    if n < 2:
+                        continue
+                    # split n bits into 2..3 pieces placed anywhere without overlap among themselves
+                    cuts = sorted(rng.sample(range(1, n), min(n - 1, rng.choice([1, 1, 2]))))
+                    sizes = [b - a for a, b in zip([0] + cuts, cuts + [n])]
+                    room = W if layout == 'list' else W // 2
+                    if sum(sizes) + len(sizes) > room:
+                        continue
+                    # choose disjoint starts inside `room`
+                    starts, pos = [], 0
+                    free = room - sum(sizes)
+                    gaps = sorted(rng.randint(0, free) for _ in sizes)
+                    prev = 0
+                    for sz, g in zip(sizes, gaps):
+                        starts.append(pos + (g - prev))
+                        pos = starts[-1] + sz
+                        prev = g
+                    pieces = [('r', a, a + sz - 1) if sz > 1 or rng.random() < 0.5 else ('s', a) for a, sz in zip(starts, sizes)]
+                    rng.shuffle(pieces)
+                    entries, lst = pieces, True
+                    if layout == 'listarray':
+                        hi = max(e[-1] for e in pieces) + 1
+                        lo0 = min(e[1] for e in pieces)
+                        stride = rng.choice([hi - lo0, hi - lo0 + 1, hi])
+                        maxc = (W - hi) // stride + 1
+                        if maxc < 2:
+                            continue
+                        count_ = rng.choice([2, maxc])
+                acc = rng.choice(['rw', 'rw', 'rw', 'r', 'w', ''])
+                f = F('m%d' % k, ty, entries, acc=acc, count=count_, stride=stride, lst=lst, doc=rng.random() < 0.15)
+                if rng.random() < 0.1:
+                    f['doc_after'] = True
+                fields.append(f)
+                if count_ is not None or 'r' not in acc:
+                    all_plain_readable = False
+            if not fields:
+                continue
+            d = {'kind': 'bitfield', 'name': self.name('S'), 'base': W, 'fields': fields, 'light': rng.random() < 0.5}
+            if any(f.get('doc') for f in fields):
+                d['doc'] = True
+                for f in fields:
+                    f['doc'] = True
+            r = rng.random()
+            if r < 0.5:
+                v = rng.choice([0, 1, (1 << W) - 1, 1 << (W - 1), rng.getrandbits(W)])
+                d['default'] = {'form': 'lit', 'value': v, 'text': rng.choice([str(v), hex(v), bin(v)])} if rng.random() < 0.7 else \
+                    {'form': 'const', 'name': 'MIX_%s' % d['name'], 'value': v}
+                d['legacy'] = rng.random() < 0.2
+            if all_plain_readable and rng.random() < 0.5:
+                d['debug'] = True
+            self.add(d, 'F11', 'model', ['random-mixture'])
+            made += 1
+
     def fam_interactions(self):
         """feature interactions, systematically: every element kind x every layout (single, array, strided array, range list,
         range-list array) x two placements (up to the top bit; across bit 64 on wide bases) on arbitrary-int and native bases"""
@@ -1105,6 +1207,7 @@ class Gen:
         self.exhaustive_small_slice()
         self.fam_constants(self.consts)
         self.fam_interactions()
+        self.fam_random(160 if q else 1500)
         return self.decls
 
 
